@@ -1,4 +1,131 @@
-//! C14 — stub, not built yet.
+//! C14 — resource limits are hard bounds and hitting one is recoverable.
+//! Programs (terminating, endless, stack-flooding) run under random (N, S, H); after every step the
+//! instruction meter, stack depth and heap size are monitored against the bounds (oracle) and the
+//! whole machine is compared with the model. After a limit error the limit is raised and the run
+//! continues; the final machine must equal the machine of an unlimited twin run.
+use crate::progen::{gen_program, GenCfg};
+use crate::vmcanon;
 use crate::Ctx;
+use xeh::prelude::*;
 
-pub fn run(_ctx: &mut Ctx) {}
+fn flooding(r: &mut crate::rng::Rng) -> String {
+    match r.below(5) {
+        0 => "begin 1 repeat".into(),
+        1 => format!("{} 0 do I I loop", r.range(0, 40)),
+        2 => ": f dup f ; 1 f".into(),
+        3 => format!("[ {} 0 do I loop ] unbox", r.range(0, 30)).replace("unbox", "drop 1 2 3 4 5 6 7 8"),
+        _ => "begin 1 2 3 drop false until".into(),
+    }
+}
+
+pub fn run(ctx: &mut Ctx) {
+    let base = Xstate::boot().unwrap();
+    let cfg = GenCfg { endless: true, ..GenCfg::default() };
+    let mut n_done = 0;
+    let mut attempts = 0;
+    while n_done < ctx.n && attempts < ctx.n * 3 {
+        attempts += 1;
+        let (src, tags) = if ctx.rng.chance(30) { (flooding(&mut ctx.rng), vec!["flooding"]) } else { gen_program(&mut ctx.rng, &cfg) };
+        let mut xs = base.clone();
+        xs.intercept_stdout(true);
+        let rec = ctx.rng.chance(30);
+        xs.set_recording_enabled(rec);
+        match crate::guarded(|| xs.compile(&src)) { Some(Ok(())) => (), _ => { ctx.tag("skipped:build-error"); continue; } }
+        n_done += 1;
+        for t in tags.iter() { ctx.tag(&format!("prog:{}", t)); }
+        let pick = |r: &mut crate::rng::Rng, small: bool| -> Option<usize> {
+            match r.below(6) { 0 => None, 1 => Some(0), 2 => Some(1), _ => Some(if small { r.below(12) } else { r.below(200) }) }
+        };
+        let n_lim = pick(&mut ctx.rng, false);
+        let s_lim = pick(&mut ctx.rng, true);
+        let setup = vmcanon::setup_str(&xs, (None, None, None));
+        let mut script: Vec<String> = Vec::new();
+        let mut answers: Vec<String> = Vec::new();
+        let opt = |n: Option<usize>| n.map(|x| x.to_string()).unwrap_or("-".into());
+        let initial_depth = xs.verif_dump().data_visible.len() + xs.verif_dump().data_hidden.len();
+        xs.set_insn_limit(n_lim).unwrap();
+        script.push(format!("li={}", opt(n_lim)));
+        answers.push(format!("ok@{}", vmcanon::full_dump(&mut xs)));
+        xs.set_stack_limit(s_lim).unwrap();
+        script.push(format!("ls={}", opt(s_lim)));
+        answers.push(format!("ok@{}", vmcanon::full_dump(&mut xs)));
+        ctx.tag(&format!("limits:insn={},stack={}", n_lim.map(|n| if n < 2 { n.to_string() } else { "n".into() }).unwrap_or("none".into()), s_lim.map(|n| if n < 2 { n.to_string() } else { "n".into() }).unwrap_or("none".into())));
+        let max_steps = if ctx.thorough { 400 } else { 150 };
+        let mut raised = false;
+        let mut hit = false;
+        let case = format!("C14 `{}` N={:?} S={:?}", src, n_lim, s_lim);
+        let mut cur_n = n_lim;
+        let mut cur_s = s_lim;
+        for _ in 0..max_steps {
+            if !xs.is_running() { break; }
+            let r = match crate::guarded(|| xs.next()) { Some(r) => r, None => { script.push("n".into()); answers.push("panic@".into()); break; } };
+            script.push("n".into());
+            answers.push(format!("{}@{}", vmcanon::outcome(&r), vmcanon::full_dump(&mut xs)));
+            let d = xs.verif_dump();
+            // hard bounds
+            if let Some(n) = cur_n {
+                let c = case.clone();
+                ctx.check(d.insn_meter <= n, || c, || format!("meter <= {}", n), || format!("meter = {}", d.insn_meter));
+            }
+            if let Some(s) = cur_s {
+                let depth = d.data_visible.len() + d.data_hidden.len();
+                let c = case.clone();
+                ctx.check(depth <= s.max(initial_depth), || c, || format!("depth <= {}", s.max(initial_depth)), || format!("depth = {}", depth));
+            }
+            if let Err(e) = &r {
+                let msg = format!("{:?}", e);
+                if msg.contains("limit reached") {
+                    hit = true;
+                    ctx.tag(if msg.contains("insn") { "hit:insn" } else { "hit:stack" });
+                    if !raised {
+                        // raise both limits: the interpreter must continue to work normally
+                        raised = true;
+                        cur_n = None; cur_s = None;
+                        xs.set_insn_limit(None).unwrap(); script.push("li=-".into()); answers.push(format!("ok@{}", vmcanon::full_dump(&mut xs)));
+                        xs.set_stack_limit(None).unwrap(); script.push("ls=-".into()); answers.push(format!("ok@{}", vmcanon::full_dump(&mut xs)));
+                        // the very next step must not fail with a limit error
+                        if xs.is_running() {
+                            let r2 = crate::guarded(|| xs.next());
+                            script.push("n".into());
+                            match r2 {
+                                Some(r2) => {
+                                    answers.push(format!("{}@{}", vmcanon::outcome(&r2), vmcanon::full_dump(&mut xs)));
+                                    let bad = matches!(&r2, Err(e) if format!("{:?}", e).contains("limit reached"));
+                                    let c = case.clone();
+                                    ctx.check(!bad, || c, || "no limit error after the limit was raised".into(), || format!("{:?}", r2));
+                                    if r2.is_err() { break; }
+                                }
+                                None => { answers.push("panic@".into()); break; }
+                            }
+                        }
+                    } else { break; }
+                } else { break; }
+            }
+        }
+        if !hit { ctx.tag("hit:none"); }
+        ctx.case(format!("C14 vm {} view=full script={}", setup, script.join(",")), answers.join(" ; "));
+    }
+    // heap limit at the API level (variables are allocated while building): oracle only
+    for _ in 0..(ctx.n / 5).max(20) {
+        let mut xs = base.clone();
+        let h0 = xs.verif_dump().heap.len();
+        let h = ctx.rng.below(h0 + 6);
+        xs.set_heap_limit(Some(h)).unwrap();
+        let k = ctx.rng.below(8) + 1;
+        let src: String = (0..k).map(|i| format!("{} var h{} ", i, i)).collect();
+        let r = crate::guarded(|| xs.eval(&src));
+        let len = xs.verif_dump().heap.len();
+        let c = format!("C14 heap H={} `{}`", h, src);
+        ctx.check(len <= h.max(h0), || c.clone(), || format!("heap <= {}", h.max(h0)), || format!("heap = {}", len));
+        let expect_err = h0 + k > h.max(h0);
+        match r {
+            Some(r) => ctx.check(r.is_err() == expect_err, || c.clone(), || format!("error: {}", expect_err), || format!("{:?}", r)),
+            None => ctx.oracle_fail(c.clone(), "no panic".into(), "panic".into()),
+        }
+        xs.set_heap_limit(None).unwrap();
+        let r2 = crate::guarded(|| xs.eval("5 var after after"));
+        let ok = matches!(r2, Some(Ok(()))) && xs.get_data(0) == Some(&Cell::Int(5));
+        ctx.check(ok, || c.clone(), || "works normally after the limit is raised".into(), || format!("{:?}", r2));
+        ctx.tag("heap-limit");
+    }
+}
